@@ -285,6 +285,11 @@ def build_jobs(ctx):
             W = [[v * rng.choice([1, -1]) for v in row] for row in W]
         if kind != "empty" or rng.random() < 0.2:    # normalize of the empty matrix is 0/0
             signed.append((W, rng.choice([1, 1, 2]), 0.4))
+    # one-node networks (a single self-connection) and two-node ones: the smallest in-domain matrices
+    for v in (4, -2, 1, 3):
+        signed.append(([[v]], rng.choice([1, 2]), 0.5))
+    for _ in range(4):
+        signed.append((rand_matrix(rng, 2, rng.random() < 0.5, -3, 3, 1.0), 1, 0.5))
     for t, (W, den, p_plain) in enumerate(signed):
         for copy in ([1, 0] if not q else [rng.randrange(2)]):
             vals = sorted(set(v for row in W for v in row))
